@@ -19,16 +19,20 @@ class Aborted(Exception):
     """the child process died (signal / abnormal exit) or stalled while running the native code"""
 
 
+class Stalled(Exception):
+    """the child did not answer within the time limit (killed): NO verdict (a loaded machine), counted"""
+
+
 class RemoteError(Exception):
     """an ordinary exception raised inside the child; str() = 'ClassName: message'"""
 
 
-STATS = {"calls": 0, "aborted": 0}
+STATS = {"calls": 0, "aborted": 0, "stalled": 0}
 
 
-def call(fn, *args, timeout=120, **kwargs):
+def call(fn, *args, timeout=300, **kwargs):
     """fn(*args, **kwargs) in a forked child. Returns its result; raises RemoteError for an exception raised by fn,
-    Aborted when the child died or stalled."""
+    Aborted when the child died, Stalled when it did not answer in time."""
     STATS["calls"] += 1
     r, w = os.pipe()
     pid = os.fork()
@@ -86,8 +90,9 @@ def call(fn, *args, timeout=120, **kwargs):
             if res[0] == "ok":
                 return res[1]
             raise RemoteError(f"{res[1]}: {res[2]}")
-    STATS["aborted"] += 1
     if stalled:
-        raise Aborted(f"stalled for more than {timeout} s (killed)")
+        STATS["stalled"] += 1
+        raise Stalled(f"no answer within {timeout} s (killed)")
+    STATS["aborted"] += 1
     sig = os.WTERMSIG(status) if os.WIFSIGNALED(status) else None
     raise Aborted(f"process died with signal {sig}" if sig else f"process exited abnormally (status {status})")
